@@ -108,8 +108,10 @@ func (t *Directive) Validate(root *Root) (errs []error) {
 				} else {
 					// Might as well replace the coerced value since it is really
 					// what is needed.
-					a := a
-					root.coerced = append(root.coerced, func() { a.Default = v })
+					if !isCollection(v) {
+						a := a
+						root.coerced = append(root.coerced, func() { a.Default = v })
+					}
 				}
 			}
 		} else {
